@@ -16,8 +16,8 @@ import (
 
 func init() {
 	fw.Register(&fw.Check{
-		ID: "C13",
-		Rule: "cases: a finite labelled matrix, enumerated completely: for each action a valid patch in several shapes and one mutation per documented constraint (id lengths 0/1/50/51 and every forbidden character class for keys, services and remove lists; duplicate ids; missing type; both/neither of JWK and base58; JWK without kty/crv/x, RSA without n/e; JsonWebKey2020 with base58; each forbidden extra member; purposes empty/unknown/six; the full 6 key types x 5 purposes matrix plus general keys and an unknown type; service type lengths 0/30/31; endpoint missing, empty, invalid URI, list whose k-th string entry (k=1..3) is invalid; also-known-as unparsable/duplicate; empty remove lists; replace documents with a foreign member or an invalid key/service), every key/service mutation in both the add-* and the replace context; original documents with/without id and @context; plus random valid patches that must all pass. The label (not a re-parse) gives the expected verdict. distinct = distinct labelled case names + shapes of random valid patches.",
+		ID:          "C13",
+		Rule:        "cases: a finite labelled matrix, enumerated completely: for each action a valid patch in several shapes and one mutation per documented constraint (id lengths 0/1/50/51 and every forbidden character class for keys, services and remove lists; duplicate ids; missing type; both/neither of JWK and base58; JWK without kty/crv/x, RSA without n/e; JsonWebKey2020 with base58; each forbidden extra member; purposes empty/unknown/six; the full 6 key types x 5 purposes matrix plus general keys and an unknown type; service type lengths 0/30/31; endpoint missing, empty, invalid URI, list whose k-th string entry (k=1..3) is invalid; also-known-as unparsable/duplicate; empty remove lists; replace documents with a foreign member or an invalid key/service), every key/service mutation in both the add-* and the replace context; original documents with/without id and @context; plus random valid patches that must all pass. The label (not a re-parse) gives the expected verdict. distinct = distinct labelled case names + shapes of random valid patches.",
 		Assumptions: []string{"rule table transcribed from the property statement and the documented key-type/purpose table"},
 		Exhaustive:  func(string) bool { return true },
 		Require:     []string{"labelled-valid", "labelled-invalid", "matrix", "random-valid", "original-documents"},
@@ -102,7 +102,9 @@ func keyMutations(r *fw.Rand) []mut {
 		mut{"key-type-trailing-space", false, func(m map[string]interface{}) { m["type"] = "JsonWebKey2020 " }},
 		mut{"key-purpose-wrong-case", false, func(m map[string]interface{}) { m["purposes"] = []interface{}{"Authentication"} }},
 		mut{"key-purpose-trailing-space", false, func(m map[string]interface{}) { m["purposes"] = []interface{}{"authentication "} }},
-		mut{"key-purposes-duplicate-within-five", true, func(m map[string]interface{}) { m["purposes"] = []interface{}{"authentication", "assertionMethod", "authentication"} }},
+		mut{"key-purposes-duplicate-within-five", true, func(m map[string]interface{}) {
+			m["purposes"] = []interface{}{"authentication", "assertionMethod", "authentication"}
+		}},
 		mut{"key-type-unknown-no-purposes", false, func(m map[string]interface{}) { m["type"] = "FooVerificationKey2099"; delete(m, "purposes") }},
 		mut{"key-both-jwk-and-base58", false, func(m map[string]interface{}) { m["publicKeyBase58"] = gen.B58(r.Bytes(32)) }},
 		mut{"key-neither-jwk-nor-base58", false, func(m map[string]interface{}) { delete(m, "publicKeyJwk") }},
@@ -112,7 +114,11 @@ func keyMutations(r *fw.Rand) []mut {
 			delete(m, "publicKeyJwk")
 			m["publicKeyBase58"] = gen.B58(r.Bytes(32))
 		}},
-		mut{"key-base58-empty", false, func(m map[string]interface{}) { m["type"] = gen.TEd2018; delete(m, "publicKeyJwk"); m["publicKeyBase58"] = "" }},
+		mut{"key-base58-empty", false, func(m map[string]interface{}) {
+			m["type"] = gen.TEd2018
+			delete(m, "publicKeyJwk")
+			m["publicKeyBase58"] = ""
+		}},
 		mut{"key-jwk-without-kty", false, func(m map[string]interface{}) { delete(m["publicKeyJwk"].(map[string]interface{}), "kty") }},
 		mut{"key-jwk-without-crv", false, func(m map[string]interface{}) { delete(m["publicKeyJwk"].(map[string]interface{}), "crv") }},
 		mut{"key-jwk-without-x", false, func(m map[string]interface{}) { delete(m["publicKeyJwk"].(map[string]interface{}), "x") }},
@@ -174,7 +180,10 @@ func serviceMutations() []mut {
 		mut{"service-endpoint-list-of-objects", true, func(m map[string]interface{}) {
 			m["serviceEndpoint"] = []interface{}{map[string]interface{}{"uri": ok}, map[string]interface{}{"uri": ok + "/b"}}
 		}},
-		mut{"service-extra-properties", true, func(m map[string]interface{}) { m["priority"] = 1; m["recipientKeys"] = []interface{}{"did:example:1#k"} }},
+		mut{"service-extra-properties", true, func(m map[string]interface{}) {
+			m["priority"] = 1
+			m["recipientKeys"] = []interface{}{"did:example:1#k"}
+		}},
 	)
 	return ms
 }
